@@ -132,7 +132,7 @@ type Record struct {
 	// KnownModel != 0: Make and Model name a camera of the library's model table, and this is the
 	// number the result must report for it whatever the layout
 	KnownModel uint32
-	GPSDate        *string // "YYYY:MM:DD"
+	GPSDate    *string // "YYYY:MM:DD"
 }
 
 func (r *Record) HasExif() bool {
